@@ -221,8 +221,9 @@ def OldCfg.fmtLines (c : OldCfg) (ls : Lines) : Lines :=
       | .bottom => (height - c.lines, 0)
       | .middle => ((height - c.lines) / 2, height - c.lines - (height - c.lines) / 2)
     else (0, 0)
-  List.replicate top (blanks width) ++ ls.map (fun l => blanks left ++ l ++ blanks right)
-    ++ List.replicate bottom (blanks width)
+  -- the padding lines span the padded width: `fill = " " * max(width, cols)`
+  List.replicate top (blanks (max width c.cols)) ++ ls.map (fun l => blanks left ++ l ++ blanks right)
+    ++ List.replicate bottom (blanks (max width c.cols))
 
 /-- the checks of `BaseImage.draw` and `_renderer`, in the order the code makes them -/
 def OldCfg.validate (c : OldCfg) : Option Err :=
